@@ -76,6 +76,8 @@ class RunRecorder:
                 self.result_ids[id(r)] = self.nitems
                 self._keep = getattr(self, "_keep", []); self._keep.append(r)
                 failed = [bool(b) for b in t.realizations.failed_realizations]
+                meta = r.metadata.get("tag", -1) if isinstance(r.metadata, dict) else -2
+                self._metas = getattr(self, "_metas", []); self._metas.append(r.metadata)
                 if isinstance(t, FunctionResults):
                     hasfun = t.functions is not None
                     obj = float(t.functions.weighted_objective) if hasfun else float("nan")
@@ -86,10 +88,10 @@ class RunRecorder:
                             if viol is not None and np.any(viol > TOL):
                                 feas = False
                     items.append({"id": self.nitems, "kind": "F", "hasfun": hasfun, "obj": obj, "nan": bool(np.isnan(obj)),
-                                  "feas": feas, "failed": failed})
+                                  "feas": feas, "failed": failed, "meta": int(meta)})
                 else:
                     items.append({"id": self.nitems, "kind": "G", "hasfun": t.gradients is not None, "obj": float("nan"), "nan": True,
-                                  "feas": True, "failed": failed})
+                                  "feas": True, "failed": failed, "meta": int(meta)})
             self.events.append({"ev": "Res", "items": items})
 
     @staticmethod
@@ -104,7 +106,7 @@ class RunRecorder:
         self.events.append({"ev": "Run", "R": int(self.R), "P": int(cfg.gradient.number_of_perturbations),
                             "minsucc": int(cfg.realizations.realization_min_success),
                             "maxfun": int(cfg.optimizer.max_functions or 0), "nfixed": 0 if self.mask is None else int((~self.mask).sum()),
-                            "batch": int(batch), "tracked": bool(tracked)})
+                            "batch": int(batch), "tracked": bool(tracked), "meta": int((kw.get("metadata") or {}).get("tag", -1))})
         try:
             code = plan.run_step(step, config=config, **kw)
             self.events.append({"ev": "Exit", "code": exit_name(code)})
@@ -114,6 +116,13 @@ class RunRecorder:
         except Exception as exc:  # noqa: BLE001
             self.events.append({"ev": "Exit", "code": f"exc:{type(exc).__name__}"})
         return None
+
+    def store(self, stored):
+        """What a store handler accumulated, and whether result items share one metadata object."""
+        metas = getattr(self, "_metas", [])
+        shared = len({id(m) for m in metas}) < len(metas) and any(m for m in metas)
+        self.events.append({"ev": "Store", "ids": [] if stored is None else [self.result_ids.get(id(r), -1) for r in stored],
+                            "metashared": bool(shared)})
 
     def best(self, kept):
         self.events.append({"ev": "Best", "kept": 0 if kept is None else self.result_ids.get(id(kept), -1)})
